@@ -86,7 +86,9 @@ Menu == <<
   Def(Obj("ImplObj", <<"Root">>, <<Fld("a", Named("Int"), <<>>, "")>>)),                                          \* 52 implements an object type (needs 9)
   Def(Enu("DupE", <<[name |-> "A", dep |-> ""], [name |-> "A", dep |-> ""]>>)),                                   \* 53 the same enum value twice
   Ext("Query", Obj("Query", <<>>, <<Fld("bad", Named("Int"), <<Arg("o", Named("Query"))>>, "")>>)),              \* 54 an argument typed by an object type (the type being built)
-  Ext("String", Obj("String", <<>>, <<Fld("zz", Named("Int"), <<>>, "")>>))                                       \* 55 an extension of a specified scalar, of the wrong kind
+  Ext("String", Obj("String", <<>>, <<Fld("zz", Named("Int"), <<>>, "")>>)),                                      \* 55 an extension of a specified scalar, of the wrong kind
+  Def(Enu("Mutation", <<[name |-> "M1", dep |-> ""]>>)),                                                          \* 56 a NON-object type with a conventional root name: not a root (valid)
+  Ext("Query", Obj("Query", <<>>, <<Fld("mm", Named("Mutation"), <<>>, "")>>))                                    \* 57 ... referred to by a field (needs 56)
 >>
 CONSTANT MenuIdx        \* the menu items that may be picked (the whole menu, or a focus on a few items with a larger MaxItems)
 CONSTANTS Slice, NSlices \* only the documents with (sum of the picked indices) % NSlices = Slice are printed for replay (all are model-checked)
